@@ -1499,6 +1499,31 @@ func c17GenScope(r *Rng, i int) c17Case {
 			fams[nf-1].keys = fams[0].keys
 		}
 	}
+	if r.Chance(20) {
+		// two families (same kind) whose names and tag keys contain '_' so that
+		// name + keys read alike: rpc_latency{method} / rpc{latency,method}, or
+		// one name with other keys: requests{code_status} / requests{code,status}
+		// (the latter is a tag-key conflict: callback, no-op metric)
+		u := r.Range(1, 5)
+		var spec []int64
+		if u == 4 {
+			spec = c17GenVSpec(r)
+		} else if u == 5 {
+			spec = c17GenDSpec(r)
+		}
+		i, j := 3, 4
+		if r.Chance(35) {
+			i, j = r.Intn(3), r.Intn(3)
+			for j == i {
+				j = r.Intn(3)
+			}
+		} else if r.Bool() {
+			i, j = 4, 3
+		}
+		fams = append(fams, fam{name: c17Amb[i].name, u: u, keys: c17Amb[i].keys, spec: spec},
+			fam{name: c17Amb[j].name, u: u, keys: c17Amb[j].keys, spec: spec})
+		nf += 2
+	}
 	// objects: per family 1..3 distinct value tuples
 	type obj struct {
 		f    int
@@ -1578,6 +1603,56 @@ func c17Seq(letters []int, timerType int, mask int64, cb string) c17Case {
 			tags = append(tags, [2]B{"b", "w"})
 		}
 		op := c17Op{Op: "alloc", U: u, Name: "x", Tags: tags}
+		if u == 4 {
+			op.Spec = []int64{fbits(0.25), fbits(1)}
+		}
+		c.Ops = append(c.Ops, op)
+		use := c17Op{Op: "rep", O: p}
+		switch u {
+		case 1:
+			use.V = int64(p + 1)
+		case 2:
+			use.V = fbits(float64(p) + 0.5)
+		case 3:
+			use.V = []int64{1e6, 3e8, 2e9, 500}[p%4]
+		case 4:
+			use.Up, use.N = fbits([]float64{0.25, 1, math.MaxFloat64}[p%3]), int64(p%2+1)
+		}
+		c.Ops = append(c.Ops, use)
+	}
+	return c
+}
+
+// (name, tag keys) pairs whose '_'-joined concatenations coincide although the
+// pairs differ: one name with other keys, and different names.  Every pair is
+// Prometheus-valid; a by-id cache must keep them apart.
+var c17Amb = []struct {
+	name string
+	keys []string
+}{
+	{"requests", []string{"code_status"}},
+	{"requests", []string{"code", "status"}},
+	{"requests_code", []string{"status"}},
+	{"rpc_latency", []string{"method"}},
+	{"rpc", []string{"latency", "method"}},
+}
+
+// a word over (ambiguous pair x kind): letter = pair*4 + kind
+func c17AmbSeq(letters []int, timerType int, mask int64, cb string) c17Case {
+	c := c17Case{Mode: 1, TimerType: timerType, Cb: cb, CbMask: mask, DefBMode: 1,
+		DefB: []int64{fbits(0.001), fbits(0.5)}, Wrap: cb == "fn"}
+	for p, l := range letters {
+		u := l%4 + 1
+		pr := c17Amb[(l/4)%len(c17Amb)]
+		var tags [][2]B
+		for i, k := range pr.keys {
+			v := "w"
+			if i == 0 {
+				v = fmt.Sprintf("v%d", p%2)
+			}
+			tags = append(tags, [2]B{B(k), B(v)})
+		}
+		op := c17Op{Op: "alloc", U: u, Name: B(pr.name), Tags: tags}
 		if u == 4 {
 			op.Spec = []int64{fbits(0.25), fbits(1)}
 		}
@@ -1772,7 +1847,9 @@ func init() {
 		// every case is run on the real code and judged by the direct predicate;
 		// toCoq = false keeps a case out of the (slower) evaluation by the model
 		toCoq := true
-		one := func(c *c17Case, tag string) {
+		one := func(c0 *c17Case, tag string) {
+			cc := *c0 // recorded cases must not alias a variable the caller reuses
+			c := &cc
 			var out c17Out
 			switch c.Mode {
 			case 0:
@@ -1869,6 +1946,47 @@ func init() {
 			}
 		}
 		rec(nil)
+		// words over names / tag keys that contain '_' such that name and keys of
+		// different (name, key set) pairs concatenate alike: all words of length <= 2
+		// (<= 3 thorough) over pair x kind, both timer flavours, returning,
+		// panicking and randomly panicking callbacks; longer random words
+		namb := 0
+		nl := 4 * len(c17Amb)
+		ambOne := func(w []int) {
+			namb++
+			toCoq = (namb+int(ctx.Seed))%4 == 0
+			for tt := 0; tt < 2; tt++ {
+				c := c17AmbSeq(w, tt, 0, "fn")
+				one(&c, fmt.Sprintf("amb%d", len(w)))
+				c = c17AmbSeq(w, tt, -1, "fn")
+				one(&c, fmt.Sprintf("amb%d", len(w)))
+				if len(w) >= 2 {
+					c = c17AmbSeq(w, tt, 1+int64(ctx.R.U64()%(1<<uint(len(w))-1)), "fn")
+					one(&c, fmt.Sprintf("amb%d", len(w)))
+				}
+			}
+		}
+		var recA func(pre []int)
+		recA = func(pre []int) {
+			if len(pre) > 0 {
+				ambOne(pre)
+			}
+			if len(pre) == ctx.N(2, 3) {
+				return
+			}
+			for l := 0; l < nl; l++ {
+				recA(append(append([]int{}, pre...), l))
+			}
+		}
+		recA(nil)
+		for i := ctx.N(150, 3000); i > 0; i-- {
+			w := make([]int, ctx.R.Range(3, 5))
+			for k := range w {
+				w[k] = ctx.R.Intn(nl)
+			}
+			ambOne(w)
+		}
+		ctx.Res.Extra["underscore_ambiguous_words"] = namb
 		toCoq = true
 		n := ctx.N(500, 12000)
 		for i := 0; i < n; i++ {
